@@ -298,7 +298,7 @@ def run_huge(seed):
         probe = runner.run_delta(gen.to_args(opts), b'')
         if probe.rc == 0:
             break
-    shape = rng.choice(['line-1MB', 'line-1MB-wide', 'hunk-100k', 'hunk-100k-plus-only', 'many-files', 'blame-50k', 'grep-50k', 'text-200k'])
+    shape = rng.choice(['line-1MB', 'line-1MB-wide', 'hunk-100k', 'hunk-100k-plus-only', 'many-files', 'blame-50k', 'grep-50k', 'text-200k', 'many-tokens', 'many-tokens'])
     unit = rng.choice(['x', 'ab ', '\t', '日本', 'e\u0301', '\x1b[31mq\x1b[m', '😀'])
     head = 'diff --git a/f.rs b/f.rs\n--- a/f.rs\n+++ b/f.rs\n'
     parent = None
@@ -308,6 +308,18 @@ def run_huge(seed):
         if shape.endswith('wide'):
             opts['--side-by-side'] = True
         text = head + body
+    elif shape == 'many-tokens':
+        # lines of thousands of tokens (minified code) with no length limit: the table that aligns a removed with an added line
+        # is bounded, pairs that would exceed it are not compared - the lines are still lines of their own
+        nt = rng.choice([2200, 4200, 6000])
+        m = ' '.join('w%d' % i for i in range(nt))
+        p0 = ' '.join('v%d' % i for i in range(nt))
+        p1 = ' '.join('w%d' % i for i in range(rng.choice([300, 900, nt // 2])))
+        order = rng.choice([[('-', m), ('+', p0), ('+', p1)], [('-', m), ('-', p0), ('+', p1)], [('-', p0), ('-', m), ('+', p0 + ' x'), ('+', p1)]])
+        text = head + '@@ -1,%d +1,%d @@\n' % (sum(1 for k, _ in order if k == '-') + 1, sum(1 for k, _ in order if k == '+') + 1) + \
+            ''.join(k + t + '\n' for k, t in order) + ' ctx\n'
+        opts['--max-line-length'] = 0
+        opts.pop('--side-by-side', None)
     elif shape == 'hunk-100k':
         text = head + '@@ -1,100000 +1,100000 @@\n' + ''.join(' c%d\n-m%d\n+p%d\n' % (i, i, i) for i in range(34000))
     elif shape == 'hunk-100k-plus-only':
